@@ -813,6 +813,14 @@ def _parse_node_for_arg(_required, action, choices, node, typ):
     :return: _required, action, choices, typ
     :rtype: ```tuple[bool, Optional[str], Optional[List[str]], Optional[str]]```
     """
+    if (
+        isinstance(node, Subscript)
+        and isinstance(node.value, Name)
+        and node.value.id == "Literal"
+        and isinstance(node.slice, (Constant, Str))
+    ):
+        # `Literal['a']`: a single member is not wrapped in a `Tuple`
+        node = Tuple(elts=[node.slice], ctx=Load())
     if isinstance(node, Tuple):
         maybe_choices = tuple(
             get_value(elt) for elt in node.elts if isinstance(elt, (Constant, Str))
